@@ -13,12 +13,14 @@ ClientOK(d, f) ==
        LET m == d.methods[i] c == f.client[i] IN
        /\ c.fn = m.name /\ c.paths = <<Path(d, m)>> /\ c.gm = << <<Qual(d), m.proto>> >> /\ c.kinds = <<Kind(m)>>
        /\ c.arg_streaming = m.cs /\ c.ret_streaming = m.ss
+       /\ ("codec" \in DOMAIN m /\ "codec" \in DOMAIN c) => c.codec = <<m.codec>>      \* manual builder: each method is generated with its own codec
 ServerOK(d, f) ==
   /\ Len(f.server) = Len(d.methods)
   /\ \A i \in 1..Len(d.methods) :
        LET m == d.methods[i] a == f.server[i] IN
        /\ a.path = Path(d, m) /\ a.grpc_calls = <<Kind(m)>> /\ a.trait_calls = <<m.name>>
        /\ Len(a.impls) = 1 /\ a.impls[1].trait = Trait(m) /\ Len(a.resp) = 1
+       /\ ("codec" \in DOMAIN m /\ "codec" \in DOMAIN a) => a.codec = <<m.codec>>
        \* a streaming response names its item type once more when the stream is boxed (default stubs): it is the response type
        /\ ("resp_stream_items" \in DOMAIN a) => (/\ Len(a.resp_stream_items) = (IF m.ss THEN 1 ELSE 0)
                                                  /\ \A k \in 1..Len(a.resp_stream_items) : a.resp_stream_items[k] \in {"", a.resp[1]}
